@@ -81,6 +81,10 @@ def generate(r, tier):
     if r.random() < 0.7:
         scn["mode"] = "sweep"
         scn["base"] = gen.gen_ticket(r, "b", units, profile)
+        if world.get("classes") and not is_async and r.random() < 0.2:
+            # a constructor (possibly reaching a wrapped base constructor through super().__init__()) as the faulted call
+            cs = r.choice(world["classes"])
+            scn["base"] = {"id": "b", "fn": "__init__", "op": "new", "cls": cs["name"], "obj": "nb"}
         if world.get("classes") and world["classes"][0].get("invs") and "obj" in scn["base"] and r.random() < 0.5:
             inv = "K0/inv%d" % r.randrange(len(world["classes"][0]["invs"]))
             scn["base"]["poke"] = {inv: False}
@@ -314,7 +318,12 @@ def judge(run, pristine, scn, plan):
         if out is None:
             continue  # the call never completed (cap) - judged elsewhere
         top = out.get("exc_obj")
-        ok = top is not None and _chain_has(top, e)
+        if kind.startswith("raise:") or kind.startswith("throw:"):
+            # an exception raised by a condition, capture, error factory, awaited operation or body surfaces as that very
+            # object; the documented wrappers exist only for the truth test (ValueError) and the message building (RuntimeError)
+            ok = top is e
+        else:
+            ok = top is not None and _chain_has(top, e)
         if not ok and kind.startswith("repr:"):
             # absorbed by the repr machinery: then the call must end exactly as it ends without the failing __repr__
             # (the violation is still reported; or, where an alternative precondition group holds, the call succeeds)
@@ -449,7 +458,8 @@ def expand(scn):
                     cfg["truth"] = False
                 single(t)
         elif kind == "body":
-            key = (tid, "body")
+            occ = sum(1 for e in dry.log[:n] if e[4] == xid and e[2] == "body")
+            key = (tid, "body", occ)
             if key in seen:
                 continue
             seen.add(key)
@@ -459,7 +469,7 @@ def expand(scn):
                     tgt = _find(t, tid)
                     if tgt is None:
                         continue
-                    tgt.setdefault("body", {})["fault"] = {"kind": "raise:" + x, "pos": pos}
+                    tgt.setdefault("body", {})["fault"] = {"kind": "raise:" + x, "pos": pos, "occ": occ}
                     single(t)
         elif kind == "await":
             if engine == "loop":
